@@ -97,19 +97,24 @@ def run(variants, jobs=None, verbose=True):
 
 
 def _rename_probe(prop, seed):
-    """The check on the global private-rename overlay (renames.py)."""
+    """The check on the global rename overlay (renames.py): every private
+    identifier of the package and every local variable of every function
+    renamed to unrelated names."""
     from ..cli import run_property
     from . import renames
 
-    ov, mapping = renames.overlay(seed)
+    ov, n = renames.both_overlay(seed)
+    ov2, n2 = renames.equivalences_overlay(seed, base=ov)  # plus flipped comparisons, swapped branches, x += k spelled out
+    ov = {**ov, **ov2}
+    n += n2
     if not ov:
-        return ("rename-all-private", "stale", "")
+        return ("rename-everything", "stale", "")
     code, chk, err = run_property(prop, "quick", 0, overlay=ov, write=False, quiet=True)
     if code == 0:
-        return ("rename-all-private", "ok", f"{len(mapping)} private identifiers renamed, silent")
+        return ("rename-everything", "ok", f"{n} mechanical edits (private identifiers, locals, comparisons, branches), silent")
     if code == 1:
-        return ("rename-all-private", "FAIL", "false alarm on a pure rename: " + "; ".join(f"{f.rule} {f.message[:80]}" for f in chk.findings[:2]))
-    return ("rename-all-private", "FAIL", f"analysis error on a pure rename: {err}")
+        return ("rename-everything", "FAIL", "false alarm on a pure rename: " + "; ".join(f"{f.rule} {f.message[:80]}" for f in chk.findings[:2]))
+    return ("rename-everything", "FAIL", f"analysis error on a pure rename: {err}")
 
 
 def run_for_property(prop, seed=0, verbose=True):
